@@ -197,6 +197,13 @@ def node_ids(t, acc):
     return acc
 
 
+def hidden_state(p):
+    """Fingerprint of everything the parser object holds (whatever its attributes are called), addresses removed."""
+    import re
+    names = set(getattr(type(p), "__slots__", ())) | set(getattr(p, "__dict__", {}))
+    return [(a, re.sub(r" at 0x[0-9a-f]+", "", repr(getattr(p, a, None)))) for a in sorted(names)]
+
+
 def sharing(p):
     """Pairs of decay tables (by mother name) that share a tree node, child list or token object."""
     sets = [(t.children[0].children[0].value, node_ids(t, set())) for t in p._parsed_decays]
@@ -284,7 +291,7 @@ def make_run_history(fi):
                     fails.append(("tables-share-state", f"file {FILES[fi][0]}: after {[o[0] for o in hist[:step+1]]} tables {sh[:4]} share tree nodes / child lists / tokens"))
                 if fails:
                     break
-        hidden = (repr(p._parsed_decays), repr(p._parsed_dec_file), p._include_ccdecays, bool(sharing(p)))
+        hidden = (hidden_state(p), bool(sharing(p)))
         return {"canon": (snapshot(p, stable), short_hash(hidden)), "fails": fails, "enabled": ops, "outcome": (cc, len(fails))}
 
     return run_history
